@@ -14,6 +14,7 @@ THEOREMS = [
     "Verif.C06.processed_not_sliceable",
     "Verif.C06.slice_ranges_sublist",
     "Verif.C06.slice_slice",
+    "Verif.C06.slice_compose",
     "Verif.C06.crop_rows",
     "Verif.C06.crop_negative",
     "Verif.C06.crop_crop",
